@@ -82,3 +82,10 @@ func debugPanics(repo string) {
 	}
 	fmt.Println("total", n)
 }
+
+func debugGlobals(repo string) {
+	w := loadWorld(repo, false)
+	for k, v := range globalWriters(w) {
+		fmt.Println(k, "<-", v)
+	}
+}
